@@ -13,7 +13,8 @@
 //  3. flattens the document with its OWN reading of the mapping (object -> dotted names,
 //     tags -> name.key, nested -> separate entries, multi-type -> one title per type) into
 //     the list of indexed occurrences (title, type, size limit, value bytes),
-//  4. builds SeqQL texts FROM THE VALUE BYTES in the drawn quoting style - whole value
+//  4. builds SeqQL texts FROM THE VALUE BYTES in the drawn quoting style (and, when the
+//     configuration is case-insensitive, in a drawn letter case) - whole value
 //     (keyword), each word and the whole phrase (text), each leading path cut at a separator
 //     and the whole value (path), `_exists_:<title>` (every indexed type) - parses them with
 //     the real parser under the same mapping and evaluates the returned AST against the
@@ -27,6 +28,9 @@
 //     `_exists_` tokens that differ from the expected titles,
 //  7. for a sample of cases appends the captured blocks to a real store and runs the same
 //     ASTs through the real search (active and sealed fraction).
+//
+// Findings saved under replays/C11 (their failure signatures start with "D-<class>/") are
+// kept out of the campaign by construction; see excludeKnown / tolerateKnown.
 package c11
 
 import (
